@@ -82,6 +82,8 @@ type State struct {
 type HookFn func(m *Machine, st *State, call *ssa.CallCommon, args []Val) (alts []Val, handled bool)
 
 type Machine struct {
+	orderFree  map[*ssa.Range]bool // range-over-map loops proven independent of the iteration order
+	PeekRest   func(st *State) string // for (*bufio.Reader).Peek of the line-reader oracle: the unread rest of the input
 	inInit     bool // package initialisers are running: their writes to package-level variables are the initial state
 	P          *Prog
 	Alpha      *Alphabet
@@ -356,6 +358,43 @@ func (st *State) noteGlobalWrite(obj int) {
 	}
 	if obj < st.InitMark {
 		st.GlobalWrite = fmt.Sprintf("an object allocated by a package initialiser (#%d)", obj)
+		// name it after the package-level variable it is reachable from
+		var names []string
+		for g, id := range st.Globals {
+			if g.Pkg == nil || !strings.HasPrefix(g.Pkg.Pkg.Path(), repoModule) {
+				continue
+			}
+			seen := map[int]bool{}
+			var reach func(id, depth int) bool
+			reach = func(id, depth int) bool {
+				if id == obj {
+					return true
+				}
+				if seen[id] || depth > 6 {
+					return false
+				}
+				seen[id] = true
+				o := st.Heap[id]
+				if o == nil {
+					return false
+				}
+				var refs []int
+				valRefs(o.V, &refs)
+				for _, r := range refs {
+					if reach(r, depth+1) {
+						return true
+					}
+				}
+				return false
+			}
+			if reach(id, 0) {
+				names = append(names, g.Pkg.Pkg.Name()+"."+g.Name())
+			}
+		}
+		if len(names) > 0 {
+			sort.Strings(names)
+			st.GlobalWrite = "the object " + names[0] + " points to"
+		}
 	}
 }
 
@@ -526,7 +565,7 @@ func (m *Machine) Run(st *State) []*State {
 		return m.run(st)
 	}
 	entry := st.Frames[0].Fn
-	outs := m.run(st)
+	outs := mergeSame(m, m.run(st))
 	for _, o := range outs {
 		if o.GlobalWrite != "" {
 			if _, seen := globalMutations[o.GlobalWrite]; !seen {
@@ -1148,7 +1187,30 @@ func (m *Machine) step(st *State) (forks []*State) {
 		}
 		n := len(st.Heap[mv.Obj].V.(*MapObjV).K)
 		if n > 6 {
-			st.stuck("range over a map of %d entries (permutation bound)", n)
+			// too many orders to enumerate: one order stands for all when the loop provably does not depend on it
+			// (unique-match idiom, element-keyed updates and deletes only: the rule behind C18-DET)
+			okOrder, known := m.orderFree[x]
+			if !known {
+				okOrder = false
+				for _, ml := range mapOrderLoops(fr.Fn) {
+					if ml.Range == x {
+						okOrder = ml.OK
+					}
+				}
+				if m.orderFree == nil {
+					m.orderFree = map[*ssa.Range]bool{}
+				}
+				m.orderFree[x] = okOrder
+			}
+			if !okOrder {
+				st.stuck("range over a map of %d entries (permutation bound)", n)
+				return nil
+			}
+			order := make([]int, n)
+			for i := range order {
+				order[i] = i
+			}
+			set(&MapIterV{Obj: mv.Obj, Order: order})
 			return nil
 		}
 		if m.RangeCover != nil && n > m.RangeCover[x] {
@@ -1201,13 +1263,30 @@ func (m *Machine) step(st *State) (forks []*State) {
 			return nil
 		}
 		mo := st.Heap[it.Obj].V.(*MapObjV)
-		i := it.Order[it.Pos]
-		it.Pos++
-		if i >= len(mo.K) {
-			st.stuck("map modified during iteration")
-			return nil
+		none := func(i int) string { return fmt.Sprint(i) }
+		if it.Keys == nil {
+			// snapshot of the keys in iteration order, taken at the first step
+			it.Keys = []Val{}
+			for _, i := range it.Order {
+				if i >= len(mo.K) {
+					st.stuck("map modified before the iteration started")
+					return nil
+				}
+				it.Keys = append(it.Keys, cloneVal(mo.K[i]))
+			}
 		}
-		set(&TupleV{E: []Val{true, cloneVal(mo.K[i]), cloneVal(mo.V[i])}})
+		// an entry removed during the iteration before it was reached is not produced; its value is the current one
+		for it.Pos < len(it.Keys) {
+			want := fmtVal(it.Keys[it.Pos], none)
+			it.Pos++
+			for j := range mo.K {
+				if fmtVal(mo.K[j], none) == want {
+					set(&TupleV{E: []Val{true, cloneVal(mo.K[j]), cloneVal(mo.V[j])}})
+					return nil
+				}
+			}
+		}
+		set(&TupleV{E: []Val{false, zeroVal(mt.Key()), zeroVal(mt.Elem())}})
 	case *ssa.MakeClosure:
 		f := &FuncV{Fn: x.Fn.(*ssa.Function)}
 		for _, b := range x.Bindings {
@@ -1381,7 +1460,19 @@ func (m *Machine) doCall(st *State, fr *Frame, x *ssa.Call) []*State {
 	}
 	if cc.IsInvoke() {
 		recv := m.get(st, fr, cc.Value)
-		if m.InvokeHook != nil {
+		// oracles stand in for values of foreign types; a receiver whose dynamic type is the repository's own has its
+		// method interpreted (a read-ahead layer in front of the caller's ReaderAt, a hashing reader, ...)
+		ownMethod := false
+		if iv, isI := recv.(IfaceV); isI {
+			if sel := types.NewMethodSet(iv.T).Lookup(cc.Method.Pkg(), cc.Method.Name()); sel != nil {
+				if f := m.P.SSA.MethodValue(sel); f != nil && f.Blocks != nil && inRepoOrRef(f) {
+					if _, hooked := m.Hooks[f.String()]; !hooked {
+						ownMethod = true
+					}
+				}
+			}
+		}
+		if m.InvokeHook != nil && !ownMethod {
 			alts, handled := m.InvokeHook(m, st, cc, recv, args)
 			if st.Status != stRun {
 				return nil
@@ -1502,7 +1593,7 @@ func (m *Machine) callFn(st *State, fr *Frame, x *ssa.Call, fn *ssa.Function, ar
 }
 
 // interpretedDeps: third-party packages small and pure enough to be interpreted like repository code.
-var interpretedDeps = map[string]bool{"pault.ag/go/topsort": true}
+var interpretedDeps = map[string]bool{"pault.ag/go/topsort": true, "slices": true, "maps": true, "cmp": true}
 
 func inRepoOrRef(fn *ssa.Function) bool {
 	if fn.Pkg == nil {
@@ -1564,6 +1655,102 @@ func (m *Machine) builtin(st *State, x *ssa.Call, name string, args []Val) (Val,
 		return nil, false
 	case "append":
 		return m.doAppend(st, x, args)
+	case "copy":
+		dst, ok := args[0].(SliceV)
+		if !ok {
+			if _, isNil := args[0].(nilV); isNil {
+				return int64(0), true
+			}
+			st.stuck("copy into %T", args[0])
+			return nil, false
+		}
+		if dst.Abs {
+			st.stuck("copy into an abstract slice")
+			return nil, false
+		}
+		var src []Val
+		switch s := args[1].(type) {
+		case string:
+			for i := 0; i < len(s); i++ {
+				src = append(src, int64(s[i]))
+			}
+		case nilV:
+		default:
+			elems, many, ok := m.sliceElems(st, args[1])
+			if !ok || many {
+				st.stuck("copy from %T", args[1])
+				return nil, false
+			}
+			// overlapping copies behave like memmove: the source is read first
+			for _, e := range elems {
+				src = append(src, cloneVal(e))
+			}
+		}
+		n := len(src)
+		if dst.Len_ < n {
+			n = dst.Len_
+		}
+		for i := 0; i < n; i++ {
+			if !st.store(Ptr{Obj: dst.Obj, Path: pathAppend(dst.Path, dst.Lo+i)}, src[i]) {
+				st.stuck("copy: bad destination")
+				return nil, false
+			}
+		}
+		return int64(n), true
+	case "delete":
+		mv, ok := args[0].(MapV)
+		if !ok {
+			if _, isNil := args[0].(nilV); isNil {
+				return nil, true // delete on a nil map is a no-op
+			}
+			st.stuck("delete on %T", args[0])
+			return nil, false
+		}
+		st.own(mv.Obj)
+		st.noteGlobalWrite(mv.Obj)
+		mo := st.Heap[mv.Obj].V.(*MapObjV)
+		switch args[1].(type) {
+		case string, int64, bool:
+		default:
+			st.stuck("delete with an abstract key (%T)", args[1])
+			return nil, false
+		}
+		ks := fmtVal(args[1], func(i int) string { return fmt.Sprint(i) })
+		for i := range mo.K {
+			if fmtVal(mo.K[i], func(i int) string { return fmt.Sprint(i) }) == ks {
+				mo.K = append(mo.K[:i:i], mo.K[i+1:]...)
+				mo.V = append(mo.V[:i:i], mo.V[i+1:]...)
+				break
+			}
+		}
+		return nil, true
+	case "clear":
+		switch x := args[0].(type) {
+		case MapV:
+			st.own(x.Obj)
+			st.noteGlobalWrite(x.Obj)
+			mo := st.Heap[x.Obj].V.(*MapObjV)
+			mo.K, mo.V = nil, nil
+			return nil, true
+		}
+		st.stuck("clear of %T", args[0])
+		return nil, false
+	case "min", "max":
+		if len(args) > 0 {
+			best, ok := args[0].(int64)
+			for _, a := range args[1:] {
+				v, isInt := a.(int64)
+				ok = ok && isInt
+				if (name == "min" && v < best) || (name == "max" && v > best) {
+					best = v
+				}
+			}
+			if ok {
+				return best, true
+			}
+		}
+		st.stuck("builtin %s on non-integers", name)
+		return nil, false
 	}
 	st.stuck("builtin %s", name)
 	return nil, false
